@@ -23,8 +23,8 @@ ASSUMPTIONS = ['bad facts are read from the trace (which hooks raised, which '
                'tests started) and calibrated unittest outcome kinds',
                'a child crash/spawn failure/cut report injected by the '
                'harness counts as a bad fact']
-FLOORS = {'verdicts_judged': 1500, 'good_controls': 150, 'bad_plans': 600,
-          'noise_pairs': 300, 'child_fault_cases': 60, 'mode_sets': 200,
+FLOORS = {'verdicts_judged': 600, 'good_controls': 40, 'bad_plans': 250,
+          'noise_pairs': 150, 'child_fault_cases': 100, 'mode_sets': 150,
           'cli_status_checked': 30}
 BATCH_TIMEOUT = 600
 
@@ -38,14 +38,14 @@ STREAMS = ['stdout', 'stderr', '__stderr__', 'fd1', 'fd2', 'stdout.buffer']
 
 
 def batch_size(tier):
-    return 2
+    return 1
 
 
 def cases(tier, seed):
     rng = random.Random(seed * 5309 + 2)
-    n = 60 if tier == 'quick' else 900
+    n = 64 if tier == 'quick' else 1200
     return [{'idx': i, 'wseed': rng.randrange(1 << 30),
-             'budget': 16 if tier == 'quick' else 30} for i in range(n)]
+             'budget': 4 if tier == 'quick' else 24} for i in range(n)]
 
 
 def noise_overlay(rng, plan, spec, tids):
@@ -216,7 +216,10 @@ def run_case(case):
             if len(lnames) >= 2 or (lnames and None in
                                     {l for _, l in tests.values()}):
                 pool.append('resume')
-            modes += rng.sample(pool, 1 if label != 'good' else 2)
+            if label == 'good':
+                modes += rng.sample(pool, 2)
+            elif rng.random() < 0.7:
+                modes += rng.sample(pool, 1)
             verdicts = {}
             executed = 0
             for mode in modes:
@@ -246,7 +249,7 @@ def run_case(case):
                         V('good-plan-has-bad-facts', 'harness-good-plan-bad',
                           facts=T.layer_failures + T.import_failures)
                 # noise overlay, same mode
-                if rng.random() < 0.5:
+                if rng.random() < 0.4:
                     pn = noise_overlay(rng, p, spec, tids)
                     wn = common.run_world(spec, pn, o, root=root)
                     C('noise_pairs')
@@ -255,8 +258,11 @@ def run_case(case):
                           tb=(wn.raised_tb or '')[-700:])
                     elif wn.verdict != w.verdict:
                         mech = 'verdict-changed-by-noise'
-                        if mode != 'in' and header_noise_on_child_stderr(pn) \
-                                and w.verdict and not wn.verdict:
+                        par = next((e['pid'] for e in wn.events
+                                    if e['k'] == 'run.enter'), None)
+                        kids = any(e['k'].startswith(('test.', 'layer.'))
+                                   and e['pid'] != par for e in wn.events)
+                        if kids and header_noise_on_child_stderr(pn):
                             mech = 'verdict-header-lookalike-noise'
                         V('verdict-changed-by-noise', mech, mode=mode,
                           quiet=w.verdict, noisy=wn.verdict, plan=pn,
@@ -290,7 +296,7 @@ def run_case(case):
             cf.append({'crash': {'at': 'layer.tearDown:' + ln}})
         cf.append({'crash': {'at': 'report'}})
         rng.shuffle(cf)
-        for c in cf[:3]:
+        for c in cf[:max(1, case['budget'] // 8)]:
             c['crash']['how'] = rng.choice(['exit0', 'exit3', 'SIGKILL',
                                             'SIGSEGV'])
             plan = dict(base_plan)
